@@ -559,7 +559,9 @@ func (r *runner) locate(mk func() (Target, error), batchStart int) (int, string)
 		}
 		defer t2.Close()
 		for i := from; i < len(r.hist); i++ {
-			t2.Exchange(r.hist[i].in)
+			if o := t2.Exchange(r.hist[i].in); o.Dead {
+				return i, "on the connection in use: " + strings.Join(o.Problems, "; ")
+			}
 			if why := t2.Handshake(); why != "" {
 				return i, why
 			}
@@ -569,7 +571,7 @@ func (r *runner) locate(mk func() (Target, error), batchStart int) (int, string)
 	if i, why := try(batchStart); i >= 0 {
 		return i, why
 	}
-	if batchStart > 0 {
+	if batchStart > 0 && len(r.hist) <= 4000 {
 		return try(0)
 	}
 	return -1, ""
@@ -646,6 +648,17 @@ func (r *runner) surviveOn(t Target, cs []Case, mk func() (Target, error)) {
 	}
 	step := func(c Case, in Input) {
 		if r.dead[t] {
+			return
+		}
+		if time.Since(t0) > 4*time.Minute {
+			// far beyond anything a healthy server needs (a quick run takes seconds): stop instead of running into the
+			// component's timeout and losing everything found so far
+			r.s.Violate(hk.Violation{Fingerprint: "rpc:" + kind + ":run-budget-exceeded", What: "the server answers so slowly that the run was cut short after 4 minutes",
+				Input: describe(t, c, in)})
+			if r.dead == nil {
+				r.dead = map[Target]bool{}
+			}
+			r.dead[t] = true
 			return
 		}
 		if o := r.exchange(t, c, in); o.Dead {
